@@ -263,8 +263,14 @@ def run_case(stream, seed, ctx, params):
         d.cells = [c1] + rest
         d.mats = {1: [('13027', '1.0')], 2: [('26056', '1.0')]}
         return run_deck(ctx, stream, d, [], rng, npts=npts, extra_sig={'variant': variant, 'rot': cls})
+    if rng.random() < 0.3:
+        # lattice cells carrying a FILL transformation or a TRCL: the transformation is composed with the translation
+        # of every element (compose_transform)
+        d = U.build_universe_deck(rng, depth=2, macro_p=0.0, tr_p=0.0, fill_tr_p=0.5, trcl_p=0.4, lattice_p=0.7,
+                                  lat_tr_p=0.6, lat_trcl_p=0.5, rot_classes=['perm', 'pyth', 'generic', 'mirror'])
+        return run_deck(ctx, stream, d, [], rng, npts=npts)
     d = U.build_universe_deck(rng, depth=rng.randint(1, 2), macro_p=0.3, tr_p=0.3, fill_tr_p=0.9, trcl_p=0.5,
-                              rot_classes=['perm', 'pyth', 'generic'])
+                              rot_classes=['perm', 'pyth', 'generic', 'mirror'])
     return run_deck(ctx, stream, d, [], rng, npts=npts)
 
 
